@@ -518,3 +518,25 @@ def m_vec_index_from(ex, m, args, tys, st, fn):
 @model(r"^<Vec<.*> as (?:std::ops::)?Deref(?:Mut)?>::deref(?:_mut)?$")
 def m_vec_deref(ex, m, args, tys, st, fn):
     return [(st, args[0])]  # &Vec<T> -> &[T]: same elements
+
+
+def _struct_eq(a, b):
+    """Structural equality of plain values (ints, aggregates, enums with possibly symbolic tags)."""
+    if isinstance(a, T) and isinstance(b, T):
+        if a.sort == "B":
+            return tm.or_(tm.and_(a, b), tm.and_(tm.not_(a), tm.not_(b)))
+        return tm.eq(a, b)
+    if isinstance(a, Agg) and isinstance(b, Agg) and len(a.fields) == len(b.fields):
+        return tm.and_(*[_struct_eq(x, y) for x, y in zip(a.fields, b.fields)])
+    if isinstance(a, Enum) and isinstance(b, Enum):
+        conj = [tm.eq(a.tag, b.tag)]
+        for k in set(a.pay) & set(b.pay):
+            conj.append(tm.implies(tm.eq(a.tag, I(k)), tm.and_(*[_struct_eq(x, y) for x, y in zip(a.pay[k], b.pay[k])])))
+        return tm.and_(*conj)
+    raise Unsupported(f"equality of {a!r} and {b!r}")
+
+
+@model(r"^<(?:std::option::)?Option<.*> as (?:std::cmp::)?PartialEq>::(eq|ne)$")
+def m_option_eq(ex, m, args, tys, st, fn):
+    e = _struct_eq(ex.deref(args[0]), ex.deref(args[1]))
+    return [(st, e if m.group(1) == "eq" else tm.not_(e))]
